@@ -3,7 +3,7 @@ CONSTANTS
   Sets = {"A", "B"}
   Perms = {"PA", "PB"}
   Deltas = {"d1", "d2", "d3", "d4", "d5", "d6", "d7", "d8"}
-  Mech = {"stubs", "pos", "order", "ovl"}
+  Mech = {"stubs", "pos", "order", "ovl", "meas"}
   MaxLen = 64
 INVARIANT C06_Defined
 INVARIANT C06_Pure
